@@ -41,11 +41,29 @@ extern int __lsan_do_recoverable_leak_check(void);
  * returned 1 the process must be restarted to attribute later leaks, so the
  * caller terminates the process after logging the End event.
  */
+static int cf_leak_probed;		/* did the last cf_leak_check really probe? */
+static int cf_leak_period = 1;
+
 static int cf_leak_check(void)
 {
 #ifdef CF_HAVE_LSAN
     int saved = vt_in_lib;
     int rv;
+    static int period = -1, count;
+
+    /* CF_LSAN_PERIOD=n: probe only every n-th call (cost control); a leak
+     * is then attributed to the case that ends the period, whose replay
+     * covers the whole period */
+    if (period < 0) {
+	const char *p = getenv("CF_LSAN_PERIOD");
+
+	period = p != NULL ? atoi(p) : 1;
+	cf_leak_period = period;
+    }
+    cf_leak_probed = 0;
+    if (period == 0 || (period > 1 && ++count % period != 0))
+	return 0;
+    cf_leak_probed = 1;
 
     vt_in_lib = 0;
     rv = __lsan_do_recoverable_leak_check() != 0;
